@@ -285,6 +285,8 @@ static void scenario_diff_patch(Case &c, Draw &d) {
   bool repr = d.chance(2, 3); if (repr) { auto oa = all_objs(A), ob = all_objs(B); for (size_t i = 0; i < oa.size() && i < ob.size(); i++) if (!oa[i]->name) { oa[i]->name = strdup(strf("n%zu", i).c_str()); free(ob[i]->name); ob[i]->name = strdup(strf("n%zu", i).c_str()); } }
   if (d.chance(1, 3)) { hwloc_bitmap_t al = gen_subset(d, hwloc_topology_get_topology_cpuset(A), 2, 3); if (hwloc_bitmap_iszero(al)) hwloc_bitmap_set(al, hwloc_bitmap_first(hwloc_topology_get_topology_cpuset(A))); int r1 = hwloc_topology_allow(A, al, NULL, HWLOC_ALLOW_FLAG_CUSTOM), r2 = hwloc_topology_allow(B, al, NULL, HWLOC_ALLOW_FLAG_CUSTOM); CHECK(c, r1 == 0 && r2 == 0, "harness", "allow failed"); c.descf("\n | allowed cpuset %s in both", bstr(al).c_str()); c.cls("diffpatch:disallowed-pus"); hwloc_bitmap_free(al); }
   auto objs = all_objs(B); int nedits = d.range(1, 6);
+  // bulk renames: every object gets a long new name, so that the diff grows past the sizes the tools read in one piece (4 kB, 8 kB, 16 kB ...)
+  if (repr && d.chance(1, 3)) { int pad = d.range(10, 120); for (size_t i = 0; i < objs.size(); i++) { free(objs[i]->name); objs[i]->name = strdup((strf("renamed-%zu-", i) + std::string((size_t)pad, 'a' + (char)(i % 26))).c_str()); } c.descf("\n | every object renamed (%zu objects, %d padding bytes)", objs.size(), pad); c.cls("diffpatch:bulk-rename"); }
   for (int i = 0; i < nedits; i++) { hwloc_obj_t o = objs[d.raw() % objs.size()]; int k = d.range(0, 2); if (repr && k == 0) k = 1; std::string nm = strf("k%d", i), val = strf("v%u", d.raw() % 1000);
     if (k == 0) { hwloc_obj_add_info(o, nm.c_str(), val.c_str()); c.descf("\n | add info %s=%s on %s#%u", nm.c_str(), val.c_str(), hwloc_obj_type_string(o->type), o->logical_index); }
     else if (k == 1) { free(o->name); o->name = strdup(val.c_str()); c.descf("\n | name of %s#%u = %s", hwloc_obj_type_string(o->type), o->logical_index, val.c_str()); }
@@ -294,11 +296,21 @@ static void scenario_diff_patch(Case &c, Draw &d) {
   CHECK(c, hwloc_topology_export_xml(A, pa.c_str(), 0) == 0 && hwloc_topology_export_xml(B, pb.c_str(), 0) == 0, "harness", "cannot export the two topologies");
   Run r = run_tool(c, "hwloc-diff", {pa, pb, pd});
   if (r.rc == 0) {
-    Run q = run_tool(c, "hwloc-patch", {pa, pd, pp}); CHECK(c, q.rc == 0, "patch_exit", "hwloc-patch exited with %d: %s", q.rc, q.err.substr(0, 300).c_str());
+    // the diff is given as a file, or piped on standard input ("-")
+    std::string dtext; { FILE *f = fopen(pd.c_str(), "rb"); char b[65536]; size_t n; while (f && (n = fread(b, 1, sizeof b, f)) > 0) dtext.append(b, n); if (f) fclose(f); }
+    bool via_stdin = d.chance(1, 2); c.cls(via_stdin ? "diffpatch:diff-on-stdin" : "diffpatch:diff-file"); c.cls(dtext.size() > 16384 ? "diffpatch:diff>16k" : dtext.size() > 8192 ? "diffpatch:diff>8k" : dtext.size() > 4096 ? "diffpatch:diff>4k" : "diffpatch:diff<=4k");
+    Run q = via_stdin ? run_tool(c, "hwloc-patch", {pa, "-", pp}, &dtext) : run_tool(c, "hwloc-patch", {pa, pd, pp}); CHECK(c, q.rc == 0, "patch_exit", "hwloc-patch (diff of %zu bytes %s) exited with %d: %s", dtext.size(), via_stdin ? "on standard input" : "as a file", q.rc, q.err.substr(0, 300).c_str());
     hwloc_topology_t P; hwloc_topology_init(&P); hwloc_topology_set_flags(P, fl); hwloc_topology_set_all_types_filter(P, HWLOC_TYPE_FILTER_KEEP_ALL); CHECK(c, hwloc_topology_set_xml(P, pp.c_str()) == 0 && hwloc_topology_load(P) == 0, "patch_reload", "the patched XML does not load");
     // total_memory is derived: B was edited in place (local_memory without propagation), compare what an XML reload of B gives
     hwloc_topology_t B2; hwloc_topology_init(&B2); hwloc_topology_set_flags(B2, fl); hwloc_topology_set_all_types_filter(B2, HWLOC_TYPE_FILTER_KEEP_ALL); CHECK(c, hwloc_topology_set_xml(B2, pb.c_str()) == 0 && hwloc_topology_load(B2) == 0, "harness", "B does not reload");
     std::string df = first_diff(dump_topology(B2, DUMP_GP | DUMP_EXTRAS), dump_topology(P, DUMP_GP | DUMP_EXTRAS)); CHECK(c, df.empty(), "diff_patch", "hwloc-patch(A, hwloc-diff(A,B)) differs from B: %s", df.c_str());
+    // and back: hwloc-patch -R on the patched file gives A again
+    if (d.chance(1, 2)) { std::string pr = wd + strf("/R.%d.xml", (int)getpid()); bool rs = d.chance(1, 2); Run q2 = rs ? run_tool(c, "hwloc-patch", {d.chance(1, 2) ? "-R" : "--reverse", pp, "-", pr}, &dtext) : run_tool(c, "hwloc-patch", {"-R", pp, pd, pr});
+      CHECK(c, q2.rc == 0, "patch_exit", "hwloc-patch -R exited with %d: %s", q2.rc, q2.err.substr(0, 300).c_str());
+      hwloc_topology_t R, A2; hwloc_topology_init(&R); hwloc_topology_set_flags(R, fl); hwloc_topology_set_all_types_filter(R, HWLOC_TYPE_FILTER_KEEP_ALL); CHECK(c, hwloc_topology_set_xml(R, pr.c_str()) == 0 && hwloc_topology_load(R) == 0, "patch_reload", "the reverse-patched XML does not load");
+      hwloc_topology_init(&A2); hwloc_topology_set_flags(A2, fl); hwloc_topology_set_all_types_filter(A2, HWLOC_TYPE_FILTER_KEEP_ALL); CHECK(c, hwloc_topology_set_xml(A2, pa.c_str()) == 0 && hwloc_topology_load(A2) == 0, "harness", "A does not reload");
+      std::string dr = first_diff(dump_topology(A2, DUMP_GP | DUMP_EXTRAS), dump_topology(R, DUMP_GP | DUMP_EXTRAS)); CHECK(c, dr.empty(), "diff_patch", "hwloc-patch -R (patched, diff) differs from A: %s", dr.c_str());
+      hwloc_topology_destroy(R); hwloc_topology_destroy(A2); unlink(pr.c_str()); c.cls("diffpatch:reversed"); }
     hwloc_topology_destroy(P); hwloc_topology_destroy(B2); c.cls("diffpatch:applied"); c.nontrivial();
   } else { CHECK(c, r.rc == 1 || r.rc == 2 || r.rc == EXIT_FAILURE, "diff_exit", "hwloc-diff exited with %d", r.rc); c.cls("diffpatch:diff-refused"); }
   unlink(pa.c_str()); unlink(pb.c_str()); unlink(pd.c_str()); unlink(pp.c_str()); hwloc_topology_destroy(A); hwloc_topology_destroy(B);
